@@ -65,6 +65,15 @@ def run(rep, tier):
         recvorder(rep, cli)
 
 
+def spawner(dbg):
+    """The private method of DebuggerContext that starts the parser thread (std::thread::spawn), whatever it is called."""
+    for b in dbg.bodies:
+        if b.get("impl_self") == DC and b.get("body") is not None and any(
+                kind(x) == "Call" and ("thread::" in str(callee(x)) and str(callee(x)).endswith("::spawn")) for x in walk(b["body"])):
+            return b
+    return None
+
+
 def lock(rep, dbg):
     r = rep.rule("C17.LOCK", 4, "no lock guard of the breakpoint set is live across send / park / join")
     for fn in dbg.bodies:
@@ -120,7 +129,9 @@ def stoporder(rep, dbg):
     npaths = 0
     for (ev, out) in exits(pe.paths()):
         ji = hirq.index_of(ev, lambda e: e.kind == "call" and callee(e.node) == JOIN)
-        spawn_i = hirq.index_of(ev, lambda e: e.kind == "call" and callee(e.node) == DC + "::handle")
+        sp = spawner(dbg)
+        spath = sp["path"] if sp is not None else DC + "::handle"
+        spawn_i = hirq.index_of(ev, lambda e: e.kind == "call" and callee(e.node) == spath)
         clear = [i for i, e in enumerate(ev) if e.kind == "call" and callee(e.node) == STORE and hirq.lit_value(e.node["args"][0]) is False]
         if spawn_i >= 0 and not any(ci < spawn_i for ci in clear):
             r.violation("clear-missing", where(ev[spawn_i].node), "a new parser is started on a path that did not "
@@ -234,7 +245,7 @@ def listener(rep, dbg, vm):
         if bad_abort:
             r.violation("parse_rule:abort", where(pr["body"]), "a `true` answer of the listener does not abort the "
                         "rule immediately with Err: a stop request is not honoured at the next rule entry")
-    h = dbg.fn(DC + "::handle")
+    h = spawner(dbg)
     if h is None:
         r.lost("DebuggerContext::handle")
         return
@@ -281,7 +292,7 @@ def doneflag(rep, dbg):
     r = rep.rule("C17.DONEFLAG", 2,
                  "the parser thread stores is_done = true only after sending its final event; cont() returns "
                  "EofReached when the flag is set and otherwise unparks the parser")
-    h = dbg.fn(DC + "::handle")
+    h = spawner(dbg)
     if h is None:
         r.lost("DebuggerContext::handle")
         return
